@@ -13,7 +13,7 @@ import numpy as np
 from symx import api as S
 
 PROPERTY = "C19"
-OPTIONS = dict(validate=12, query_timeout_ms=60000, max_paths=200)
+OPTIONS = dict(validate=12, query_timeout_ms=60000, max_paths=200, warmup="first")
 STUBS = []
 OUTSIDE = ["IEEE rounding of ceil((D/n)/(D/nv)) (covered by the FP lemma where decided)", "3-D and space-time patches (NotImplementedError by design)", "blend_and_assemble weights"]
 ASSUMPTIONS = ["patch counts for which patches can be built: every patch non-empty, i.e. (n-1)*ceil(nv/n) < nv per axis"]
